@@ -738,6 +738,79 @@ fn malformed_triples(n: usize) -> Vec<Triple> {
     out
 }
 
+/// HashToPoint's XOF stream as part of verify's environment: for every scripted chunk stream of C14's family (runs of
+/// rejected chunks at four positions, many rejections spread out, periodic rejections, constant streams) the reference
+/// computes c on that stream, a triple with squared norm exactly the bound (accept) and one above (reject) is solved
+/// for it, and verify runs while the hooked XOF reader delivers the same stream.
+fn scripted_hash_triples<V: Variant>(ctx: &mut Ctx, tier: Tier) {
+    let n = V::N;
+    let bound = sig_bound(n);
+    let fam = super::c14::scripted_streams(n, tier.thorough());
+    let salt = vec![0x45u8; 40];
+    let msg = b"scripted stream".to_vec();
+    let mut sm = salt.clone();
+    sm.extend_from_slice(&msg);
+    let mut s2 = vec![0i64; n];
+    s2[0] = 1;
+    let body = body_of(n, &s2).unwrap();
+    let sig = encode_sig(n, &salt, &body);
+    let (Some(sq_acc), Some(sq_rej)) = (squares(bound - 1), squares(bound)) else { machinery_error("C02: no four-square split of the bound") };
+    let t = fam
+        .par_iter()
+        .map(|(name, chunks)| {
+            let mut tl = Tally::default();
+            let prefix: Vec<u8> = chunks.iter().flat_map(|v| [(v >> 8) as u8, (v & 0xff) as u8]).collect();
+            let c = keccak::hash_to_point_on_stream(&prefix, &sm, n, None);
+            for (sq, expect) in [(&sq_acc, true), (&sq_rej, false)] {
+                let s1 = sparse(n, sq, 5);
+                let Some(h) = solve_h(&c, &s1, &s2) else { continue };
+                let norm = crate::refmodel::verify::norm_of(&c, &s2, &h);
+                if (norm <= bound as i128) != expect {
+                    machinery_error("C02: the reference norm on a scripted stream contradicts the construction");
+                }
+                tl.cases += 1;
+                let pkb = keycodec::pk_encode(&h);
+                falcon_rust::verif_hooks::install_xof_prefix(prefix.clone());
+                let got = catch(|| -> Result<bool, String> {
+                    let pk = V::pk_from_bytes(&pkb)?;
+                    let sg = V::sig_from_bytes(&sig)?;
+                    Ok(V::verify(&msg, &sg, &pk))
+                });
+                falcon_rust::verif_hooks::uninstall_xof_prefix();
+                let case = || json!({"kind":"scripted-stream","variant":n,"stream":name});
+                match got {
+                    Ok(Ok(v)) if v == expect => {
+                        if v {
+                            tl.acc += 1
+                        } else {
+                            tl.rej_norm += 1
+                        }
+                    }
+                    Ok(Ok(v)) => {
+                        tl.nviol += 1;
+                        let key = format!("verify:{}:scripted-stream:n={}:{}", if v { "accepts-invalid" } else { "rejects-valid" }, n, name.split(' ').take(2).collect::<Vec<_>>().join(" "));
+                        let what = format!("{}::verify = {} but Algorithm 16 gives {} (squared norm {} against {}) when HashToPoint reads the XOF stream [{}]", V::name(), v, expect, norm, bound, name);
+                        tl.found.entry(key.clone()).or_insert_with(|| found(key, what, case()));
+                    }
+                    Ok(Err(e)) | Err(e) => {
+                        tl.nviol += 1;
+                        let key = format!("verify:error:scripted-stream:n={}", n);
+                        let what = format!("{}::verify failed ({}) when HashToPoint reads the XOF stream [{}]", V::name(), e, name);
+                        tl.found.entry(key.clone()).or_insert_with(|| found(key, what, case()));
+                    }
+                }
+            }
+            tl
+        })
+        .reduce(Tally::default, reduce);
+    if (t.acc == 0 || t.rej_norm == 0) && t.nviol == 0 {
+        machinery_error("C02: the scripted-stream family produced only one verdict (vacuity guard)");
+    }
+    let mut part = Part::new(&format!("scripted_hash_streams_{}", n), &format!("{} scripted XOF chunk streams of C14's family x (squared norm = bound, bound + 1): c computed by the reference on the stream, h solved for s2 = 1 and a four-square s1, verify run while the hooked XOF reader delivers the stream", fam.len()));
+    part.exhaustive = true;
+    t.into_part(ctx, part);
+}
+
 fn run_triples<V: Variant>(ctx: &mut Ctx, name: &str, space: &str, triples: Vec<Triple>) {
     run_triples_g::<V>(ctx, name, space, triples, true)
 }
@@ -808,6 +881,7 @@ fn one_variant<V: Variant>(ctx: &mut Ctx, tier: Tier) {
     run_triples_g::<V>(ctx, &format!("big_s2_{}", n), "s2 = a X^i with a in {+-6144, +-6145, +-8192, +-12159, +-12160, +-12288, +-12289, 12290, +-24578} (outside the centred range of Z_q), i in {0,1,n/2,n-1}, s1 small: the squared norm is over the decoded integers", big_s2_triples(n), false);
     run_triples::<V>(ctx, &format!("extreme_s1_{}", n), "s2 = 1 and h = c - v so that s1 = v, v in {+-6144, +-6143, +-1, 2048, -4096} on a support {every index, i = r mod m for m in {2,...,64} and every r, lower half, upper half}, 0 elsewhere: norms from n+1 up to the maximum n * 6144^2 + 1, overall and per stride class", extreme_s1_triples(n));
     run_triples::<V>(ctx, &format!("dense_{}", n), "dense short (s1,s2) of honest magnitude tuned to total norm B-1, B, B+1, B/2", dense_triples(n));
+    scripted_hash_triples::<V>(ctx, tier);
     lookalike_key_histories::<V>(ctx);
     run_triples::<V>(ctx, &format!("run_alignment_{}", n), "s2 = +-(128 r + low) X^j for every unary run length r in 0..=95, low in {0,127}, j in 1..=8 (all eight cursor alignments), s1 = 0: accepted iff the square is within the bound", run_alignment_triples(n));
     run_triples::<V>(ctx, &format!("message_length_ladder_{}", n), &format!("messages of every length 0..={} and around 2^12 .. 2^18 (position-dependent content), s2 = +-X^(len mod n), total norm B and B+1", if tier.thorough() { 2100 } else { 520 }), length_triples(n, tier.thorough()));
@@ -833,6 +907,9 @@ pub fn run(tier: Tier) {
 }
 
 pub fn replay(case: &Value) -> Result<Option<String>, String> {
+    if case.get("kind").and_then(|k| k.as_str()) == Some("scripted-stream") {
+        return Err("re-run ./vf check C02 (the stream family is enumerated deterministically)".into());
+    }
     if case.get("kind").and_then(|k| k.as_str()) .map(|k| k == "e5" || k == "e5-setup").unwrap_or(false) {
         return crate::e5::replay(case);
     }
